@@ -765,6 +765,8 @@ def replay_record(record, make):
                 vals[k] = v
     o = dict(opts)
     o.pop("data_policy", None)
+    if record.get("generic_seed") is not None:
+        o["generic_seed"] = record["generic_seed"]
     CTX.reset(pins, [], o)
     CTX.mode = "concrete"
     CTX.values = vals
